@@ -576,7 +576,7 @@ func (s *lockingStream) Gen(r *tr.Rng) *tr.Op {
 		if strings.Contains(req.Cls, "weight-up-after") {
 			// look at the state right after the weight change, before the end-of-block hook (which fails - and ends this
 			// world - if an exited or jailed validator was handed power)
-			s.push(tr.NewOp("dump", "dump.lock"))
+			s.push(tr.NewOp("dump/mid-block", "dump.lock", "mid", "1"))
 		}
 	}
 	s.push(tr.NewOp("end", "hook.lock.end", "height", s.height, "time", s.now))
